@@ -11,8 +11,18 @@ def run(ctx):
         ctx.mc("MC_MQ", cfg, timeout=3000 if ctx.quick else 14400)
     ctx.mc("MC_Dwt53", "MC_Dwt53_q.cfg" if ctx.quick else "MC_Dwt53_t.cfg", timeout=3000 if ctx.quick else 14400)
     ctx.mc("MC_T1", "MC_T1_q.cfg" if ctx.quick else "MC_T1_t.cfg", timeout=6000 if ctx.quick else 14400)
+    # reverse direction for the block coder: blocks coded by the reference encoder (seeded simulation)
+    nsim = 300 if ctx.quick else 3000
+    scn, r = vlib.gen_scenarios(wd, "T1Gen", "T1Gen.cfg", workers=1, simulate="num=%d" % nsim, timeout=3000,
+                                extra=["-seed", str(3000 + ctx.seed), "-depth", "10"])
+    ctx.mc_states += r["states"]; ctx.mc_transitions += r["states"]
+    ctx.mc_runs.append({"module": "T1Gen", "cfg": "simulate", "generated": r["states"], "blocks": len(scn)})
+    scnf = os.path.join(wd, "t1gen.ndjson")
+    with open(scnf, "w") as f:
+        for s in scn:
+            f.write(json.dumps(s) + "\n")
     trace = os.path.join(wd, "trace.ndjson")
-    args = ["c20", "--out", trace, "--seed", str(ctx.seed)] + (["--n", "200", "--maxdim", "40", "--exh", "1"] if ctx.quick else ["--n", "3000", "--maxdim", "257", "--exh", "2"])
+    args = ["c20", "--scn", scnf, "--out", trace, "--seed", str(ctx.seed)] + (["--n", "200", "--maxdim", "40", "--exh", "1"] if ctx.quick else ["--n", "3000", "--maxdim", "257", "--exh", "2"])
     out = vlib.run_driver(drv, args, env=ctx.env())
     stats = dict(kv.split("=") for kv in out.strip().split()[1:])
     mqf, otf = os.path.join(wd, "mq.ndjson"), os.path.join(wd, "other.ndjson")
@@ -29,13 +39,13 @@ def run(ctx):
            "lines": v1["lines"] + v2["lines"], "accepted": v1["accepted"] + v2["accepted"], "infos": v1["infos"] + v2["infos"], "classes": set()}
     steps = sum(int(i.split("=")[1]) for i in val["infos"] if i.startswith("steps="))
     fwd_info = [i for i in val["infos"] if i.startswith("forward 5/3")]
-    t1ref = {"agree": 0, "vsc": 0, "other": 0}
+    t1ref = {"agree": 0, "vsc": 0, "other": 0, "ragree": 0, "rlazy": 0, "rvsc": 0, "rother": 0}
     for i in val["infos"]:
         if i.startswith("t1ref "):
             for kv in i.split()[1:]:
                 k, v = kv.split("=")
                 t1ref[k] += int(v)
-    t1_other = [i for i in val["infos"] if i.startswith("T1 bytes not decodable")]
+    t1_other = [i for i in val["infos"] if i.startswith("T1 bytes not decodable") or i.startswith("library block decoder does not")]
     classes, samples = set(), []
     with open(otf) as f:
         for line in f:
@@ -54,8 +64,10 @@ def run(ctx):
              "orientation x magnitudes up to 2^24 and a dense sweep of 1000 (thorough 6000) random blocks up to 24x24 per style, all "
              "3*planes-2 passes, decoded with the reported pass lengths; the encoder's bytes of blocks up to 36 (thorough 100) samples "
              "are also decoded by the T.800 Annex D reference block decoder of spec/T1.tla (+ MQ.tla) with the reported segment "
-             "lengths (t1_reference_decoder: agree / differ under the vertically-causal style / differ otherwise; informational, C20 "
-             "only requires the library's coder to invert itself); DWT: every "
+             "lengths (t1_reference_decoder: agree / differ under the vertically-causal style / differ otherwise), and blocks coded by "
+             "the reference ENCODER (T1Gen under TLC -simulate, 300 / 3000 blocks up to 6x6, all 64 styles) are decoded by the library's "
+             "block decoder (ragree / rlazy: bypass without TERMALL, the known decoder defect / rvsc / rother); both informational, C20 "
+             "only requires the library's coder to invert itself; DWT: every "
              "w,h <= 6 (thorough 12) x levels 0..3 x origin parity plus seeded sizes up to 257, levels 0..8, origins 0..7, values up "
              "to 2^28; RCT: triples incl. extremes up to 2^28. distinct_nontrivial = distinct T1 (style, orientation, shape class) and "
              "DWT (shape class, levels, parity) tuples",
